@@ -86,14 +86,17 @@ def skip(expr: Expression, rules: Mapping[str, Rule]) -> Expression:
 
 
 def _skip(
-    expr: Expression, rules: Mapping[str, Rule], subs: list[str]
+    expr: Expression,
+    rules: Mapping[str, Rule],
+    subs: list[str],
+    seen: frozenset[str] = frozenset(),
 ) -> SkipUntil | None:
     if isinstance(expr, Group):
         expr = expr.expression
 
     if isinstance(expr, Choice):
         for ex in expr.expressions:
-            inlined_subs = _skip(ex, rules, subs)
+            inlined_subs = _skip(ex, rules, subs, seen)
             if not inlined_subs:
                 return None
         return SkipUntil(subs)
@@ -108,7 +111,8 @@ def _skip(
 
     if isinstance(expr, Identifier):
         rule = rules.get(expr.value)
-        if rule:
-            return _skip(rule.expression, rules, subs)
+        # A rule that refers back to itself is not a set of literals.
+        if rule and expr.value not in seen:
+            return _skip(rule.expression, rules, subs, seen | {expr.value})
 
     return None
